@@ -155,3 +155,53 @@ func (c *Ctx) edgeMust(fn *ssa.Function, pred, succ *ssa.BasicBlock) []string {
 	sort.Strings(out)
 	return out
 }
+
+// unitOf returns fn together with its exclusive helpers: unexported functions of the same
+// package that are called (statically) only from inside the unit, up to depth 2. Rules that
+// look for a construct "in fn" search the unit, so that extracting a block of fn into a
+// private helper does not make the construct disappear. For each helper the call site in the
+// unit is reported.
+type unitMember struct {
+	fn   *ssa.Function
+	site ssa.CallInstruction // call in the root function (nil for the root itself)
+}
+
+func (c *Ctx) unitOf(root *ssa.Function) []unitMember {
+	out := []unitMember{{fn: root}}
+	in := map[*ssa.Function]bool{root: true}
+	frontier := []unitMember{{fn: root}}
+	for depth := 0; depth < 2; depth++ {
+		var next []unitMember
+		for _, m := range frontier {
+			for _, ci := range callsIn(m.fn) {
+				g := callee(ci)
+				if g == nil || in[g] || !c.W.InRepo(g) || g.Pkg != root.Pkg || len(g.Blocks) == 0 {
+					continue
+				}
+				if g.Object() == nil || g.Object().Exported() {
+					continue
+				}
+				// every static caller is inside the unit
+				exclusive := true
+				for _, caller := range c.W.callsTo(g) {
+					if !in[caller.Parent()] {
+						exclusive = false
+					}
+				}
+				if !exclusive {
+					continue
+				}
+				in[g] = true
+				site := ci
+				if m.site != nil {
+					site = m.site
+				}
+				mem := unitMember{fn: g, site: site}
+				out = append(out, mem)
+				next = append(next, mem)
+			}
+		}
+		frontier = next
+	}
+	return out
+}
